@@ -2,10 +2,12 @@ module github.com/mimecast/dtail/verif
 
 go 1.20
 
-require github.com/mimecast/dtail v0.0.0
+require (
+	github.com/DataDog/zstd v1.5.6
+	github.com/mimecast/dtail v0.0.0
+)
 
 require (
-	github.com/DataDog/zstd v1.5.6 // indirect
 	golang.org/x/crypto v0.26.0 // indirect
 	golang.org/x/sys v0.23.0 // indirect
 	golang.org/x/term v0.23.0 // indirect
